@@ -108,8 +108,15 @@ func runC18(c *Ctx) {
 	if d2g := c.Fn("pkg/conversion", "dialectNameDefToGo"); d2g != nil {
 		var probs []string
 		re := ""
-		for _, ci := range callsNamed(d2g, "regexp.MustCompile") {
-			re = ex(ci.Common().Args[0])
+		// the regexp the function applies: the receiver of ReplaceAllStringFunc / ReplaceAllString, compiled in
+		// place or hoisted into a package variable (rendered as its initialiser)
+		for _, ci := range callsIn(d2g, func(n string, _ *ssa.CallCommon) bool { return strings.HasPrefix(n, "(regexp.Regexp).Replace") }) {
+			rx := ex(ci.Common().Args[0])
+			if strings.HasPrefix(rx, "regexp.MustCompile(") && strings.HasSuffix(rx, ")") {
+				re = strings.TrimSuffix(strings.TrimPrefix(rx, "regexp.MustCompile("), ")")
+			} else {
+				re = rx
+			}
 		}
 		if re != "\"_[a-z]\"" {
 			probs = append(probs, "underscore-folding regexp is "+re+", expected \"_[a-z]\" (folding `_<digit>` makes message names non-invertible: CRC_EXTRA of messages like X_1_TO_4 silently changes)")
